@@ -101,7 +101,10 @@ def scan_forbidden() -> list[str]:
     for p in COQ.rglob("*.v"):
         txt = p.read_text(errors="replace")
         # strip comments (non-nested approximation is enough: we forbid the words even in code only)
-        stripped = re.sub(r"\(\*.*?\*\)", "", txt, flags=re.S)
+        # string literals cannot declare anything (Python identifiers such as "inspect.Parameter" occur in regenerated
+        # effect programs): blank them first, then comments
+        stripped = re.sub(r'"(?:[^"]|"")*"', '""', txt)
+        stripped = re.sub(r"\(\*.*?\*\)", "", stripped, flags=re.S)
         for m in FORBIDDEN.finditer(stripped):
             bad.append(f"{p.relative_to(VERIF)}: {m.group(0)}")
     return bad
